@@ -235,6 +235,24 @@ def unsafe_protected_names():
 
 
 BARE_NESTED = ["logs.gz", "docs/b.bz2", "c.xz", "EXPORT.GZ", "a/b/data.csv.gz", "old/dump.BZ2"]
+# archive-like suffixes beyond the documented list: whichever of them the router hands to read_archive (extension table, aliases, compound
+# names or the MIME fallback of this host) names a nested archive - the router is asked, no list of the archive extractor is consulted
+ARCHIVE_LIKE = [".gz", ".bz2", ".xz", ".tbz", ".tb2", ".taz", ".tz", ".tlz", ".tar.Z", ".tar.lz", ".zipx", ".jar", ".gtar", ".ustar", ".cbz", ".tzst", ".TBZ", ".Taz", ".TB2", ".odt.zip"]
+_ROUTED = None
+
+
+def router_nested_suffixes():
+    global _ROUTED
+    if _ROUTED is None:
+        from sharepoint2text.parsing import router
+        _ROUTED = []
+        for suf in ARCHIVE_LIKE:
+            try:
+                if getattr(router.get_extractor("x" + suf), "__name__", "") == "read_archive":
+                    _ROUTED.append(suf)
+            except Exception:
+                pass
+    return _ROUTED
 
 
 def _bare_twin(members):
@@ -242,8 +260,7 @@ def _bare_twin(members):
     out = []
     for m in members:
         if m.get("bare"):
-            stem, dot, suf = m["name"].rpartition(".")
-            m = dict(m, name=f"{stem}.tar.{suf}")
+            m = dict(m, name=m["name"][: len(m["name"]) - len(m["bare_suffix"])] + ".tar.gz")
         out.append(m)
     return out
 
@@ -270,7 +287,7 @@ def build_case(seed: int, layout: str, focus: str = "names", limit: int | None =
     # name cases - the phantoms focus owns them
     phantom_case = fam == "7z" and focus == "names" and rng.random() < 0.4
     info = {"hostile_dirs": 0, "escaping_dirs": 0, "links_to_protected": 0, "link_tokens": [], "oversize_linked": False, "oversize_form": None, "substreams": True,
-            "prelude": [], "twin_forbidden": [], "own": [], "twins": 0, "phantom_escapes": 0, "dups": None, "dup_tokens": [], "unsafe_protected": 0, "limit_tokens": [], "bare_tokens": []}
+            "prelude": [], "twin_forbidden": [], "own": [], "twins": 0, "phantom_escapes": 0, "dups": None, "dup_tokens": [], "unsafe_protected": 0, "limit_tokens": [], "bare_tokens": [], "bare_suffixes": []}
     for i, nm in enumerate(names):
         tok = f"qa{seed % 1000:03d}{i:02d}z"
         data = f"{tok} member payload {i}\n".encode()
@@ -330,10 +347,12 @@ def build_case(seed: int, layout: str, focus: str = "names", limit: int | None =
     if bare:
         # nested archives under a bare compression suffix: a gzip / bzip2 / xz compressed TAR named x.gz / x.bz2 / x.xz
         rb = random.Random(f"c09b:{seed}")
-        for k, nm in enumerate(rb.sample(BARE_NESTED, rb.randint(1, 2))):
+        for k, suf in enumerate(rb.sample(router_nested_suffixes(), min(len(router_nested_suffixes()), rb.randint(1, 2)))):
+            nm = rb.choice(["logs", "docs/b", "EXPORT", "a/b/data.csv", "old/dump 2019"]) + suf
             tok = f"qb{seed % 100000:05d}{k}z"
-            members.append({"name": nm, "data": archives.nested_for(nm, [{"name": "inner/x.txt", "data": f"{tok} nested".encode()}]), "type": "file", "bare": True})
+            members.append({"name": nm, "data": archives.nested_for(nm, [{"name": "inner/x.txt", "data": f"{tok} nested".encode()}]), "type": "file", "bare": True, "bare_suffix": suf})
             info["bare_tokens"].append(tok)
+            info["bare_suffixes"].append(suf.lower())
     if limit:
         rl = random.Random(f"c09l:{seed}")
         for k in range(rl.randint(1, 2)):
@@ -552,6 +571,7 @@ def _work(case):
     # twins: per archive of the sequence
     out["bare_nested"] = len(info["bare_tokens"])
     out["bare_nested_in_results"] = [t for t in info["bare_tokens"] if t in blob] if consistent else []
+    out["bare_suffixes"] = sorted({suf for t, suf in zip(info["bare_tokens"], info["bare_suffixes"]) if t in blob})       # the suffixes that came through
     out["bare_twin_clean"] = None
     if out["bare_nested_in_results"]:
         tn, tt = _exhaust(fn, archives.build(layout, _bare_twin(members), substreams=info["substreams"]), layout)
@@ -735,10 +755,10 @@ def main(run):
               "oversize-member-listed-smaller" if forged else "link-to-protected-member" if ob["oversize_linked"] and focus != "dups" else None)
         if ob["dup_protected_in_results"] and not ob["oversize_content_in_results"]:
             v("hidden-or-unsupported-member-produced-result", f"tokens {ob['dup_protected_in_results'][:3]}: content of a protected member came out through a second entry ({ob['dups']}) of an ordinary member's name")
-        if ob.get("bare_nested_in_results"):
-            v("nested-archive-produced-results", f"tokens {ob['bare_nested_in_results'][:3]}: a compressed TAR stored as a member named *.gz / *.bz2 / *.xz was unpacked and its members were returned "
-              "(the same member named *.tar.gz is skipped)" if ob.get("bare_twin_clean") else f"tokens {ob['bare_nested_in_results'][:3]} of nested archives are in the results",
-              "nested-archive-under-bare-compression-suffix" if ob.get("bare_twin_clean") else None,
+        for bsuf in (ob.get("bare_suffixes") or [None]) if ob.get("bare_nested_in_results") else []:
+            v("nested-archive-produced-results", f"tokens {ob['bare_nested_in_results'][:3]}: a compressed TAR stored as a member named *{' / *'.join(ob['bare_suffixes'])} (names the router hands to read_archive) "
+              "was unpacked and its members were returned (the same member named *.tar.gz is skipped)" if ob.get("bare_twin_clean") else f"tokens {ob['bare_nested_in_results'][:3]} of nested archives are in the results",
+              f"nested-archive-named-{bsuf}" if ob.get("bare_twin_clean") and bsuf else None,
               "archive" if ob.get("bare_twin_clean") else None)      # the member filter is shared by the three containers: one mechanism
         if ob.get("over_configured_limit_in_results"):
             v("oversize-member-produced-result", f"the per-member limit was lowered to {ob['limit']} bytes through configure_archive_extraction()"
